@@ -576,7 +576,7 @@ func (c *VirtualTable) Insert(ctx context.Context, values map[int]interface{}) (
 	if err != nil {
 		return 0, fmt.Errorf("get: %w", err)
 	}
-	if ok && (!old.Deleted || !ot.Add(old.DeleteUpdateOffset.AsDuration()).Before(t)) {
+	if ok && (!old.Deleted || ot.Add(old.DeleteUpdateOffset.AsDuration()).After(t)) {
 		return 0, ErrS3DBConstraintPrimaryKey
 	}
 	new.ColumnValues = make(map[string]*v1proto.ColumnValue)
@@ -741,7 +741,8 @@ func MergeRows(_ interface{},
 			if !hideDeletedValue(t1, v1, resetValuesBefore) {
 				res.ColumnValues[k] = adj(t1, v1, outTime)
 			}
-		case UpdateTime(t1, v1).Before(UpdateTime(t2, v2)):
+		case !UpdateTime(t2, v2).Before(UpdateTime(t1, v1)):
+			// on equal times the later argument (the statement being applied) wins
 			if !hideDeletedValue(t2, v2, resetValuesBefore) {
 				res.ColumnValues[k] = adj(t2, v2, outTime)
 			}
